@@ -17,3 +17,111 @@ run, replay = make(
                  "unreachable code is checked for operand existence only"],
     replayer=checkers.replay_irwf,
 )
+
+
+# ------------------------------------------------------------------ calls against a program linked from several modules
+import itertools
+import os
+import pickle
+import shutil
+import tempfile
+
+from .. import pool, snapshot
+from ..nslapi import compile_src
+
+LINKED = {
+    # name: ({module: source}, root, every function that has to be in the linked program)
+    "chain-1": ({"leaf": "function lf(int a) -> int { return a + 1; }\n",
+                 "app": 'import "leaf";\nexport function f(int a) -> int { return lf(a) * 2; }\n'}, "app"),
+    "chain-2": ({"leaf": "function lf(int a) -> int { return a + 1; }\n",
+                 "mid": 'import "leaf";\nfunction md(int a) -> int { return lf(a) * 2; }\n',
+                 "app": 'import "mid";\nexport function f(int a) -> int { return md(a) + 1; }\n'}, "app"),
+    "chain-3": ({"leaf": "function lf(int a) -> int { return a + 1; }\n",
+                 "low": 'import "leaf";\nfunction lw(int a) -> int { return lf(a) + lf(a + 1); }\n',
+                 "mid": 'import "low";\nfunction md(int a) -> int { return lw(a) * 2; }\n',
+                 "app": 'import "mid";\nexport function f(int a) -> int { return md(a) + 1; }\n'}, "app"),
+    "diamond": ({"leaf": "function lf(float x) -> float { return x * 0.5; }\nfunction lf(int a) -> int { return a + 1; }\n",
+                 "ma": 'import "leaf";\nfunction fa(int a) -> int { return lf(a); }\n',
+                 "mb": 'import "leaf";\nfunction fb(float x) -> float { return lf(x); }\n',
+                 "app": 'import "ma";\nimport "mb";\nexport function f(int a) -> float { return fa(a) + fb(a); }\n'}, "app"),
+    "fan-then-chain": ({"zz": "function zf(int a) -> int { return a - 1; }\n",
+                        "aa": 'import "zz";\nfunction af(int a) -> int { return zf(a) * 3; }\n',
+                        "bb": "function bf(int a) -> int { return a * 5; }\n",
+                        "app": 'import "bb";\nimport "aa";\nexport function f(int a) -> int { return af(a) + bf(a); }\n'}, "app"),
+}
+
+
+def w_linked(job):
+    """Modules are compiled in dependency order, stored, and the root is linked through its imports; every function of the linked
+    program is then checked against THAT program (a call must name one of its functions, with the same number of arguments)."""
+    from nsl import LinearIR as L
+    from .. import irwf as W
+    name, opt = job
+    mods, root = LINKED[name]
+    fails, n = [], 0
+    d = tempfile.mkdtemp(prefix="nslmc-c14-", dir=snapshot._tmp_root())
+    old = os.getcwd()
+    try:
+        os.chdir(d)
+        done = set()
+        order = []
+        while len(order) < len(mods):          # dependency order: a module after everything it imports
+            for m, src in mods.items():
+                deps = [x.split('"')[1] for x in src.splitlines() if x.startswith("import")]
+                if m not in done and all(x in done for x in deps):
+                    order.append(m)
+                    done.add(m)
+        for m in order:
+            res = compile_src(mods[m], {"optimize": bool(opt)})
+            if not res.ok:
+                fails.append({"key": f"C14|linked|module-not-compiled|{name}", "linked": [name, opt], "source": mods[m], "expected": "compiles", "observed": res.cls() + " " + (res.msg or "")})
+                return n, fails
+            with open(m + ".nslir", "wb") as fh:
+                pickle.dump(res.module, fh)
+        try:
+            lk = L.Linker()
+            lk.AddModule(L.FilesystemModuleLoader().Load(root))
+            program = lk.Link()
+        except BaseException as e:
+            fails.append({"key": f"C14|linked|link-fails|{name}", "linked": [name, opt], "source": repr(mods), "expected": "links", "observed": f"{type(e).__name__}: {e}"})
+            return n, fails
+        for fn in program.Functions.values():
+            n += 1
+            for p in W.check_function(fn, program, L):
+                fails.append({"key": f"C14|linked|{p['kind']}|{p['where']}|{name}", "linked": [name, opt], "source": "\n---- ".join(f"{k}:\n{v}" for k, v in mods.items()),
+                              "expected": "every call names a function of the linked program", "observed": p["detail"]})
+    finally:
+        os.chdir(old)
+        shutil.rmtree(d, ignore_errors=True)
+    return n, fails
+
+
+_family_run, _family_replay = run, replay
+
+
+def run(tier, seed):
+    out = _family_run(tier, seed)
+    jobs = [(name, o) for name in LINKED for o in (0, 1)]
+    m = 0
+    seen = {f["key"] for f in out["failures"]}
+    for a, fl in pool.pmap(w_linked, jobs, hermetic=False):
+        m += a
+        for f in fl:
+            out["coverage"]["failing_cases_per_key"][f["key"]] = out["coverage"]["failing_cases_per_key"].get(f["key"], 0) + 1
+            if f["key"] not in seen:
+                out["failures"].append(f)
+                seen.add(f["key"])
+    out["coverage"]["evaluations"] += m
+    out["coverage"]["distinct_nontrivial"] += m
+    out["coverage"]["per_family"]["linked(import chains of depth 1-3, diamond, fan: functions checked against the program linked through imports)"] = m
+    return out
+
+
+def replay(rec, verbose=True):
+    if "linked" in rec:
+        n, fl = w_linked(tuple(rec["linked"]))
+        if verbose:
+            print(rec["source"])
+            print(fl)
+        return any(f["key"] == rec["key"] for f in fl)
+    return _family_replay(rec, verbose)
